@@ -229,9 +229,18 @@ template<size_t BC, size_t CF> static std::string tvCase(const std::string& cmd,
 			ull reqSize = gA.lastAllocSize;
 			ull bo = pool.pvGetBeginOffset(buffer);
 			long long bufOff = (long long)(reinterpret_cast<uintptr_t>(buffer) - begin);
+			// what pvNewBuffer wrote (619-637), read back from the real memory: BufferBytes, prev/next, and the index stored in every block
+			auto bytes = pool.pvGetBufferBytes(buffer);
+			std::string chain;
+			for (size_t j = 0; j < P::Params::blockCount; ++j)
+				chain += (j ? "," : "") + std::to_string(int(pool.pvGetNextFreeBlockIndex(pool.pvGetBlock(buffer, int8_t(first + int8_t(j))))));
+			bool nullLinks = pool.pvGetPrevBuffer(buffer) == nullptr && pool.pvGetNextBuffer(buffer) == nullptr;
 			pool.pvDeleteBuffer(buffer);
 			snprintf(out, sizeof out, "%llu %llu %d %lld %llu %d", ull(reinterpret_cast<uintptr_t>(fb) - begin), bo, int(first), bufOff, reqSize,
 				int(gA.lastDealloc == begin && gA.lastDeallocSize == reqSize && gA.live.empty()));
+			if (!gA.error.empty()) return "FAIL " + gA.error;
+			return std::string(out) + " bb=" + std::to_string(int(bytes.firstFreeBlockIndex)) + "," + std::to_string(int(bytes.freeBlockCount))
+				+ " links=" + (nullLinks ? "null" : "SET") + " ch=" + chain;
 		}
 		if (!gA.error.empty()) return "FAIL " + gA.error;
 		return out;
